@@ -1146,6 +1146,7 @@ func verifPartitionSMF(m Message) (n int) {
 //@ ensures [P:C03] fresh(result) && result.SMF == s && result.output != nil && fresh(result.output) && result.output.wr == output && result.output.size == 0
 //@ ensures [P:C03] len(result.currentChunk.data) == 0 && result.error == nil && !result.headerWritten && result.deltatime == 0
 //@ ensures [P:C03] output != nil && output.wlen >= 0 && typeof(output) != typeid(*wrWrapper) ==> (writerInv(result) && wrs(result) == 0)
+//@ ensures [H] result.runningWriter == nil || fresh(asptr(result.runningWriter, runningstatus.smfwriter))
 
 // WriteHeader: writes the header once; a failure is latched in w.error
 //@ func (*writer).WriteHeader
@@ -1197,6 +1198,7 @@ func verifPartitionSMF(m Message) (n int) {
 //@ ensures [P:C03] err == nil ==> (len(w.currentChunk.typ) == 4 && w.currentChunk.typ[0] == 0x4D && w.currentChunk.typ[1] == 0x54 && w.currentChunk.typ[2] == 0x72 && w.currentChunk.typ[3] == 0x6B)
 //@ ensures [P:C03] err == nil ==> writerInv(w)
 //@ ensures [H] w.SMF == old(w.SMF) && w.output == old(w.output) && w.output.wr == old(w.output.wr) && w.headerWritten == old(w.headerWritten) && w.error == old(w.error)
+//@ ensures [H] w.runningWriter == nil || w.runningWriter == old(w.runningWriter) || fresh(asptr(w.runningWriter, runningstatus.smfwriter))
 
 // ---------------------------------------------------------------- tracks (C01, C16)
 // M5: user code does not mutate the package variable EOT
@@ -1264,11 +1266,13 @@ func verifPartitionSMF(m Message) (n int) {
 //@ loop 0 decreases len(s.Tracks) - rangeindex
 //@ loop 1 invariant -1 <= rangeindex && rangeindex < len(s.Tracks) && len(s.Tracks) == old(len(s.Tracks)) && s.TimeFormat == old(s.TimeFormat)
 //@ loop 1 invariant writerInv(wr) && wr.SMF == s && wr.output.wr == f && wr.headerWritten && wr.error == nil
+//@ loop 1 invariant fresh(wr) && fresh(wr.output) && (wr.runningWriter == nil || fresh(asptr(wr.runningWriter, runningstatus.smfwriter)))
 //@ loop 1 invariant f.wlen >= old(f.wlen) && wr.output.size == int64(f.wlen - old(f.wlen))
 //@ loop 1 invariant forall i int :: 0 <= i && i < old(f.wlen) ==> f.wdata[i] == old(f.wdata[i])
 //@ loop 1 invariant f.wfailed == old(f.wfailed) && len(wr.currentChunk.data) == 0
 //@ loop 1 decreases len(s.Tracks) - rangeindex
 //@ loop 2 invariant -1 <= rangeindex && wtInv(s, wr, f) && f.wfailed == old(f.wfailed) && 0 <= rangeindex$1 + 1 && rangeindex$1 + 1 < len(s.Tracks)
 //@ loop 2 invariant msgsOK(t) && rangeindex < len(t) && len(t) < 20002
+//@ loop 2 invariant fresh(wr) && fresh(wr.output) && (wr.runningWriter == nil || fresh(asptr(wr.runningWriter, runningstatus.smfwriter)))
 //@ loop 2 invariant len(wr.currentChunk.data) <= 70000 * (rangeindex + 1)
 //@ loop 2 decreases 1000000 - rangeindex
